@@ -1,7 +1,20 @@
 #!/usr/bin/env python3
 # Generates MANIFEST.json from the table below (kept in one place so it stays valid).
 import json
+LB_NOTE = "mcache/dirtmake/sync.Pool replaced by a ghost ledger over fresh never-reused blocks with arbitrary content (capacity = next power of two); bytes.IndexByte unrolled; shapes (pointer structure) enumerated, every size/offset/byte symbolic; sizes <= 8 MB in the general harness"
 CLAIMED = {
+ "C01": dict(cat="model_checking", tech="bounded symbolic execution of go/ssa + SMT (z3, LIA pre-check), differential against a FIFO rope reference",
+   text="Every LinkBuffer method is executed symbolically from the real SSA from 19 reachable buffer shapes (sizes symbolic per size class) followed by one (quick) or two (thorough) arbitrary operations of 24 kinds with arbitrary arguments and a final drain; results, Len, MallocLen and the drained stream are compared with a FIFO reference for all sizes at once; counterexamples are replayed natively.",
+   note=LB_NOTE, ref="5.1"),
+ "C02": dict(cat="model_checking", tech="bounded symbolic execution of go/ssa + SMT; lease ghost state, write-log range disjointness",
+   text="Same runs as C01 with lease ghost state: every zero-copy result and every Slice reader is re-examined after every later operation (content unchanged by structural range-disjointness over the block write-logs, block not handed back to the pool).",
+   note=LB_NOTE, ref="5.2"),
+ "C03": dict(cat="model_checking", tech="bounded symbolic execution of go/ssa + SMT; allocator ledger assertions at the stubs",
+   text="Same runs as C01 with ledger assertions at the allocator stubs: every Free is of a whole pool block, at most once, with no reader left; node objects are pooled at most once; caller-owned memory is never written or freed.",
+   note=LB_NOTE, ref="5.3"),
+ "C16": dict(cat="model_checking", tech="bounded symbolic execution of go/ssa + SMT; nondeterministic io.Reader/io.Writer stubs",
+   text="zcReader/zcWriter/ioReader/ioWriter run on the real LinkBuffer code against io.Reader/io.Writer stubs whose every count and error is a solver variable (short, zero, negative counts, data with error); two successive calls; stream compared with a rope reference; LinkBufferCap symbolic in one harness.",
+   note=LB_NOTE + "; <= 3 source/sink calls per harness", ref="5.4"),
  "C18": dict(cat="model_checking", tech="bounded symbolic execution of go/ssa + SMT (z3)",
    text="Round-robin pick arithmetic decided for every pool size 1..8 and every counter value below 2^62 by symbolic execution of the real roundRobinLB.Pick; lazy-initialisation interleavings by the partial-order encoding (see DESIGN 5.19).",
    note="openPoll stubbed by a ghost poller; fastrand arbitrary in range; bounds in evidence", ref="5.19"),
